@@ -305,10 +305,14 @@ def scatter_sites(repo, col, cl, R, RS):
                 ix = _fuse_ix(idx.inline(repo, fi, ex.term(n.func.value.slice)))
                 keyt = _fuse_ix(keyt)
                 arr = T("sub", None, [T("param", "states"), keyt])
+                from sa.spaces import key_kind
                 for kc in idx.KCS:
                     d = cl.domain(arr, kc)
                     raw, remapped = _strip_drop_remap(ix, n, _fuse_ix(ex.term(arr_node)))
-                    sp = cl.space(raw, kc)
+                    # the keys of get_all_states are STATE names, those of get_all_parameters PARAMETER names: a conversion that is
+                    # guarded by membership in the other name set never runs
+                    with key_kind("state" if name == "get_all_states" else "param"):
+                        sp = cl.space(raw, kc)
                     if d is None or sp is None:
                         col.unk(R, fi, f"{unparse(n)[:80]} [{kc} key]", f"index space not derivable (domain {d}, index {sp})", node=n)
                         continue
